@@ -12,7 +12,7 @@ Definition ROps : Ops R := {|
   o_lit := litR;
   o_add := Rplus; o_sub := Rminus; o_mul := Rmult; o_div := Rdiv;
   o_fma := fun a b c => a * b + c;
-  o_neg := Ropp; o_max := Rmax;
+  o_neg := Ropp; o_max := Rmax; o_min := Rmin; o_abs := Rabs;
   o_ln := ln; o_exp := exp;
   o_lt := fun a b => if Rlt_dec a b then true else false;
   o_le := fun a b => if Rle_dec a b then true else false;
@@ -59,4 +59,4 @@ Ltac norm_lits :=
   end;
   unfold Q2R; cbn [Qnum Qden]; rewrite ?Rinv_1, ?Rmult_1_r.
 
-Ltac reval := cbn [eval evals beval map nth ROps o_lit o_add o_sub o_mul o_div o_fma o_neg o_max o_ln o_exp o_lt o_le o_eq o_default].
+Ltac reval := cbn [eval evals beval map nth ROps o_lit o_add o_sub o_mul o_div o_fma o_neg o_max o_min o_abs o_ln o_exp o_lt o_le o_eq o_default].
